@@ -779,6 +779,39 @@ pub fn other_builders() -> Vec<(&'static str, SerBuilder)> {
             Ok(vec![("distance".into(), fb(k.distance(a.view(), b.view())))])
         })
     }));
+    v.push(("kernel-method-gaussian-variants", |seed| {
+        // bandwidths whose reciprocal of the reciprocal is not the value itself, among others
+        let e = [49.0f64, 0.45, 0.9, 0.5, 3.3, 1e-3, 7.0, 0.1][(seed % 8) as usize];
+        ser!("kernel-method-gaussian-variants", linfa_kernel::KernelMethod::Gaussian(e), eq, |k: &linfa_kernel::KernelMethod<f64>| {
+            let a = array![0.5, -1.25, 3.0];
+            let b = array![-2.0, 0.75, 1.5];
+            Ok(vec![("distance".into(), fb(k.distance(a.view(), b.view()))), ("debug".into(), format!("{k:?}"))])
+        })
+    }));
+    // an SVM whose published dual coefficients are non-zero but below the support-vector threshold
+    // (linear kernel on unscaled features): the coefficients belong to the model
+    v.push(("svm-linear-unscaled-features", |seed| {
+        let d = make_data(50 + seed % 3, 16, 2, false);
+        let x = d.x.mapv(|v| v * 1e8);
+        let m = linfa_svm::Svm::<f64, bool>::params().linear_kernel().pos_neg_weights(1.0, 1.0).eps(1e-2).fit(&Dataset::new(x.clone(), d.ybin.clone())).map_err(es)?;
+        ser!("svm-linear-unscaled-features", m, eq, move |m: &linfa_svm::Svm<f64, bool>| {
+            let q = make_data(9, 10, 2, false).x.mapv(|v| v * 1e8);
+            let y: Array1<bool> = m.predict(&q);
+            Ok(vec![("alpha".into(), fbs(m.alpha.iter())), ("rho".into(), fb(m.rho)), ("nsupport".into(), m.nsupport().to_string()), ("predict".into(), format!("{:?}", y.to_vec()))])
+        })
+    }));
+    // isotonic fits on a feature with ties whose responses are not pooled: repeated thresholds
+    v.push(("isotonic-tied-abscissae", |seed| {
+        let n = 24;
+        let x = Array2::from_shape_fn((n, 1), |(i, _)| (i / 3) as f64);
+        let y = Array1::from_shape_fn(n, |i| i as f64 * 0.5 + ((i * 7 + seed as usize) % 3) as f64 * 0.01);
+        let m = linfa_linear::IsotonicRegression::new().fit(&Dataset::new(x, y)).map_err(es)?;
+        ser!("isotonic-tied-abscissae", m, eq, |m: &linfa_linear::FittedIsotonicRegression<f64>| {
+            let q = Array2::from_shape_fn((60, 1), |(i, _)| i as f64 * 0.15 - 0.5);
+            let y: Array1<f64> = m.predict(&q);
+            Ok(vec![("predict".into(), fbs(y.iter()))])
+        })
+    }));
     v.push(("kernel-method-poly", |_| {
         ser!("kernel-method-poly", linfa_kernel::KernelMethod::Polynomial(1.5f64, 3.0), eq, |k: &linfa_kernel::KernelMethod<f64>| {
             let a = array![0.5, -1.25, 3.0];
